@@ -30,6 +30,12 @@ func (db *DB) repairCompactions() error {
 			return err
 		}
 
+		// a memstore flush that did not finish: the data is still in the WAL, the partial table is removed
+		if info.IsDir() && strings.HasPrefix(info.Name(), SSTableFlushPathPrefix) {
+			compactionsToDelete = append(compactionsToDelete, p)
+			return filepath.SkipDir
+		}
+
 		if info.IsDir() && strings.HasPrefix(info.Name(), SSTableCompactionPathPrefix) {
 			err := func() (err error) {
 				metaPath := filepath.Join(p, CompactionFinishedSuccessfulFileName)
@@ -78,7 +84,7 @@ func (db *DB) repairCompactions() error {
 	}
 
 	for _, p := range compactionsToDelete {
-		log.Printf("found malformed compaction to be deleted in %v", p)
+		log.Printf("found unfinished compaction or flush to be deleted in %v", p)
 		err := os.RemoveAll(p)
 		if err != nil {
 			return err
